@@ -792,6 +792,15 @@ RAISED = [AttributeError, KeyError, TypeError, LookupError, ValueError, NotImple
           _Boom, AttributeError]      # (not StopIteration: generators turn it into RuntimeError)
 
 
+def _try_value(f):
+    try:
+        return ("v", f())
+    except RecursionError:
+        raise
+    except BaseException as ex:  # noqa: BLE001
+        return ("exc", type(ex).__name__)
+
+
 @check("C04.raise")
 def c_raise(ctx, case):
     """Dispatch invokes the ONE handler the rule selects; what that handler raises is the
@@ -808,7 +817,11 @@ def c_raise(ctx, case):
             exc0 = RAISED[which % len(RAISED)]("raised inside the handler")
             entered = []
 
-            def h(self, expr, *a, _exc=exc0, _entered=entered, **k):
+            armed = [True]
+
+            def h(self, expr, *a, _exc=exc0, _entered=entered, _armed=armed, _base=base, _M=M, **k):
+                if not _armed[0]:
+                    return getattr(_base, _M)(self, expr, *a, **k)
                 _entered.append(expr)
                 raise _exc
             log = []
@@ -826,8 +839,9 @@ def c_raise(ctx, case):
                 continue
             ctx.case(None)
             ctx.count("raising_handlers")
+            inst = cls()
             try:
-                cls()(e)
+                inst(e)
                 got = None
             except RecursionError:
                 raise
@@ -837,6 +851,24 @@ def c_raise(ctx, case):
                 continue        # refused or failed before reaching the node: nothing to swallow
             after = [n for n, x in log if x is entered[0]]
             if got is exc0 and len(entered) == 1 and not after:
+                # ... the caller caught it; the handler's fault is repaired (it no longer raises)
+                # and the SAME mapper object is asked again: what a fresh one gives
+                armed[0] = False
+                del log[:]
+                retry = _try_value(lambda: inst(e))
+                log_retry = [(n, normal.typed_key(x)) for n, x in log]
+                del log[:]
+                fresh = _try_value(lambda: cls()(e))
+                log_fresh = [(n, normal.typed_key(x)) for n, x in log]
+                ctx.count("retries_after_a_caught_failure")
+                same = retry[0] == fresh[0] and (normal.typed_eq(retry[1], fresh[1]) if retry[0] == "v"
+                                                 else retry[1] == fresh[1])
+                if not same or (base is WalkMapper and log_retry != log_fresh):
+                    ctx.fail("C04.raise", case, f"retry-after-failure:{base.__name__}",
+                             f"{base.__name__} subclass whose {M} raised over {G.src(e)} (caught); with "
+                             f"the handler repaired the same mapper object gives {short(retry)} "
+                             f"({len(log_retry)} handler entries), a fresh one {short(fresh)} "
+                             f"({len(log_fresh)} entries)")
                 continue
             ctx.fail("C04.raise", case, f"raise:{base.__name__}:{type(exc0).__name__}",
                      f"{base.__name__} subclass whose {M} raises {type(exc0).__name__} over "
@@ -1245,6 +1277,7 @@ def workload(ctx):
     ctx.floor("numeric_dtype_arrays", 40)
     ctx.floor("deep_towers", 400)
     ctx.floor("mixin_hierarchies_dispatched", 200)
+    ctx.floor("retries_after_a_caught_failure", 300)
     ctx.floor("evolving_dispatches", 300)
     ctx.floor("explicit_same_as_parent", 10)
     ctx.floor("kind_rewrites", 800)
